@@ -38,6 +38,9 @@ REJECTIONS = {
     'fraction-int:origin-like': {'t': 'axis', 'attrs': {'coordinates': {'v': [{'$ref': 'channel'}], 'r': 'kw'}}},
     'status-range:equipment': {'t': 'equipment', 'attrs': {'status': {'v': 7, 'r': 'kw'}}},
     'dimension-fraction:parameter': {'t': 'parameter', 'attrs': {'dimension': {'v': [2.5], 'r': 'kw'}}},
+    'wrong-type-value:origin': {'t': 'origin', 'attrs': {'run_number': {'v': 'not-a-number', 'r': 'kw'}}},
+    'wrong-type-value:frame': {'t': 'frame', 'attrs': {'channels': {'v': [{'$ref': 'channel'}], 'r': 'kw'},
+                                                       'spacing': {'v': 'wide', 'r': 'kw'}}},
 }
 
 
@@ -49,7 +52,8 @@ def histories(draw):
     ops = spec['lfs'][0]['ops']
     nbad = draw(st.integers(1, 3))
     for _ in range(nbad):
-        kind = draw(st.sampled_from(sorted(REJECTIONS)))
+        kind = draw(st.sampled_from(sorted(REJECTIONS) + ['wrong-type-value:origin', 'wrong-type-value:origin',
+                                                         'wrong-type-value:frame']))
         bad = copy.deepcopy(REJECTIONS[kind])
         bad['bad'] = kind
         t = bad['t']
@@ -64,6 +68,8 @@ def histories(draw):
         else:
             bad['name'] = draw(st.sampled_from(['P', 'Q', 'R-1']))
             pos = draw(st.integers(0, len(ops)))
+        if draw(st.integers(0, 2)) == 0:
+            bad['set'] = 'SET-ONLY-THE-REJECTED-CALL-USES'     # the rejected call is the only one to touch this set
         spec['lfs'][0]['ops'] = ops = insert_op(ops, pos, bad)
     return {'kind': 'reject-history', 'spec': spec}
 
